@@ -355,6 +355,14 @@ theorem attest_sites_well_keyed : ∀ t ∈ attestTrySites, t.wellKeyed = true :
 /-- … and there is such a call (the table is not empty because the translator lost track of `Attest`) -/
 theorem attest_sites_found : attestTrySites.any (fun t => t.att == .voted && t.claim == .voter) = true := by decide
 
+/-- where `Attest` gets the attestation the vote is appended to (REGENERATED table `attestLookup`: the assignments to that
+variable in the body of `Keeper.Attest`, in program order): only the attestation stored under the voter's OWN key
+`nonce ‖ ClaimHash(claim)`, or a new one recording the voter's claim — never one found under another key -/
+theorem attest_lookup_own_key : ∀ x ∈ attestLookup, x.own = true := by decide
+
+/-- … and the lookup under the own key is there (the table is not empty because the translator lost track of the variable) -/
+theorem attest_lookup_found : attestLookup.contains .ownKey = true ∧ attestLookup.contains .fresh = true := by decide
+
 /-- **the property**: whenever the handler runs, the claim object it is given — the threshold-crossing voter's — has the
 same type and the same effect-relevant fields as the claim of EVERY vote tallied in that attestation -/
 theorem executed_is_voted {η : Type} [DecidableEq η] (H : Str → η) (le : η → η → Bool) (ops : List Op)
@@ -362,8 +370,8 @@ theorem executed_is_voted {η : Type} [DecidableEq η] (H : Str → η) (le : η
     (collisionFree : ∀ c₁ ∈ Op.claims ops, ∀ c₂ ∈ Op.claims ops, H c₁.path = H c₂.path → c₁.path = c₂.path) :
     ∀ e ∈ (run (fun c => H c.path) le {} ops).executed, ∀ v ∈ e.tallied, v.2.effect = e.claim.effect := by
   intro e he v hv
-  have inv := inv_run attestTrySites attest_sites_well_keyed (fun c => H c.path) le (fun c => c ∈ Op.claims ops) ops {}
-    (inv_init _ _) (fun _ h => h)
+  have inv := inv_run attestTrySites attestLookup attest_sites_well_keyed attest_lookup_own_key (fun c => H c.path) le
+    (fun c => c ∈ Op.claims ops) (fun _ => False) (stale_false _ _) (Or.inr fun _ h => h) ops {} (inv_init _ _ _) (fun _ h => h)
   obtain ⟨pe, hv'⟩ := inv.2 e he
   obtain ⟨_, hk, pv⟩ := hv' v hv
   obtain ⟨k₁, v₁⟩ := valid _ pv
@@ -379,9 +387,9 @@ theorem tallied_together_agree {η : Type} [DecidableEq η] (H : Str → η) (le
     ∀ a ∈ (run (fun c => H c.path) le {} ops).atts, ∀ v ∈ a.votes,
       v.2.effect = a.claim.effect ∧ ∀ w ∈ a.votes, v.2.effect = w.2.effect := by
   intro a ha v hv
-  have inv := inv_run attestTrySites attest_sites_well_keyed (fun c => H c.path) le (fun c => c ∈ Op.claims ops) ops {}
-    (inv_init _ _) (fun _ h => h)
-  obtain ⟨⟨_, hc, pc⟩, hvs⟩ := inv.1 a ha
+  have inv := inv_run attestTrySites attestLookup attest_sites_well_keyed attest_lookup_own_key (fun c => H c.path) le
+    (fun c => c ∈ Op.claims ops) (fun _ => False) (stale_false _ _) (Or.inr fun _ h => h) ops {} (inv_init _ _ _) (fun _ h => h)
+  obtain ⟨⟨_, hc, pc⟩, hvs⟩ := (inv.1 a ha).resolve_right id
   obtain ⟨_, hk, pv⟩ := hvs v hv
   obtain ⟨k₁, v₁⟩ := valid _ pv
   refine ⟨?_, fun w hw => ?_⟩
@@ -401,7 +409,7 @@ theorem ran_is_voted {η : Type} [DecidableEq η] (H : Str → η) (le : η → 
     ∀ c ∈ (run (fun c => H c.path) le {} ops).ran,
       ∃ e ∈ (run (fun c => H c.path) le {} ops).executed, e.claim = c ∧ ∀ v ∈ e.tallied, v.2.effect = c.effect := by
   intro c hc
-  obtain ⟨e, he, hec⟩ := (pendInv_run attestTrySites (fun c => H c.path) le ops {} pendInv_init).2 c hc
+  obtain ⟨e, he, hec⟩ := (pendInv_run attestTrySites attestLookup (fun c => H c.path) le ops {} pendInv_init).2 c hc
   exact ⟨e, he, hec, fun v hv => hec ▸ executed_is_voted H le ops valid collisionFree e he v hv⟩
 
 /-- the stored copy waiting for `ExecuteClaim` under an event nonce is such a claim object, of that nonce -/
@@ -411,7 +419,7 @@ theorem pending_is_voted {η : Type} [DecidableEq η] (H : Str → η) (le : η 
     ∀ p ∈ (run (fun c => H c.path) le {} ops).pending, p.2.nonce = p.1 ∧
       ∃ e ∈ (run (fun c => H c.path) le {} ops).executed, e.claim = p.2 ∧ ∀ v ∈ e.tallied, v.2.effect = p.2.effect := by
   intro p hp
-  obtain ⟨hn, e, he, hec⟩ := (pendInv_run attestTrySites (fun c => H c.path) le ops {} pendInv_init).1 p hp
+  obtain ⟨hn, e, he, hec⟩ := (pendInv_run attestTrySites attestLookup (fun c => H c.path) le ops {} pendInv_init).1 p hp
   exact ⟨hn, e, he, hec, fun v hv => hec ▸ executed_is_voted H le ops valid collisionFree e he v hv⟩
 
 /-- `TryAttestation` also records the external block height of the claim object it is handed
@@ -425,7 +433,7 @@ theorem observed_height_is_voted {η : Type} [DecidableEq η] (H : Str → η) (
       ∧ ∀ v ∈ e.tallied, v.2.blockHeight = (run (fun c => H c.path) le {} ops).lastHeight := by
   intro e he
   have h1 : (run (fun c => H c.path) le {} ops).lastHeight = e.claim.blockHeight :=
-    heightInv_run attestTrySites (fun c => H c.path) le ops {} heightInv_init e he
+    heightInv_run attestTrySites attestLookup (fun c => H c.path) le ops {} heightInv_init e he
   refine ⟨h1, fun v hv => ?_⟩
   rw [h1]
   exact effect_blockHeight (executed_is_voted H le ops valid collisionFree e (List.mem_of_getLast? he) v hv)
@@ -518,7 +526,7 @@ def retallyOps : List Op :=
 hypothesis `attest_sites_well_keyed` of `executed_is_voted` is what rules this out -/
 theorem retally_with_voter_claim_not_voted :
     (∀ c ∈ Op.claims retallyOps, c.valid .eth = true)
-    ∧ ∃ e ∈ (runWith retallySites (fun c => c.path) (fun _ _ => true) {} retallyOps).executed,
+    ∧ ∃ e ∈ (runWith retallySites attestLookup (fun c => c.path) (fun _ _ => true) {} retallyOps).executed,
         ∃ v ∈ e.tallied, v.2.effect ≠ e.claim.effect :=
   ⟨by decide +kernel,
    ⟨{ claim := .bc { wCall with Memo := memoSendCallTo, TxOrigin := ethB }, tallied := [(0, .bc wCall)] },
@@ -526,6 +534,74 @@ theorem retally_with_voter_claim_not_voted :
 
 /-- the call structure found in the source leaves the first attestation open in the same history -/
 example : (run (fun c => c.path) (fun _ _ => true) {} retallyOps).executed = [] := by decide +kernel
+
+/-! ## attestations an earlier release left behind (round 4)
+
+`b7515bc` changed three `ClaimHash` formats.  An attestation that was open at the upgrade stays in the store under the hash
+the EARLIER release computed (`legacyKey`), with the votes cast for it.  The theorems above start from the empty state; the
+ones below start from ANY state: the attestation table may hold arbitrary attestations filed by other code under other
+hashes (`stale`: no claim submitted in the history has the key of one of them — for the legacy formats this is the
+collision-freeness of SHA-256 across the two formats).  What makes this safe is a fact about the body of `Attest` that the
+translator regenerates (`attestLookup`): the attestation the vote is appended to is looked up under the voter's own current
+key only.  A lookup that also adopts an attestation found under another key (`adoptingLookup`) tallies pre-upgrade votes
+with post-upgrade claims that differ in exactly the fields the old hash did not cover. -/
+
+/-- every `TryAttestation` call site is handed the attestation of the vote itself (REGENERATED `attestTrySites`) -/
+theorem attest_sites_voted : ∀ t ∈ attestTrySites, t.att = .voted := by decide
+
+/-- **the property, across an upgrade**: from any initial state whose attestations are stale (filed under keys no submitted
+claim has) and whose execution log is empty, every execution hands the handler a claim with the type and effect-relevant
+fields of EVERY tallied vote — the votes recorded in the stale attestations are never tallied with anything -/
+theorem executed_is_voted_from {η : Type} [DecidableEq η] (H : Str → η) (le : η → η → Bool) (s₀ : AState η) (ops : List Op)
+    (valid : ∀ c ∈ Op.claims ops, ∃ k, c.valid k = true)
+    (collisionFree : ∀ c₁ ∈ Op.claims ops, ∀ c₂ ∈ Op.claims ops, H c₁.path = H c₂.path → c₁.path = c₂.path)
+    (fresh₀ : s₀.executed = [])
+    (stale : ∀ a ∈ s₀.atts, ∀ c ∈ Op.claims ops, ¬(a.nonce = c.nonce ∧ a.hash = H c.path)) :
+    ∀ e ∈ (run (fun c => H c.path) le s₀ ops).executed, ∀ v ∈ e.tallied, v.2.effect = e.claim.effect := by
+  intro e he v hv
+  have inv := inv_run attestTrySites attestLookup attest_sites_well_keyed attest_lookup_own_key (fun c => H c.path) le
+    (fun c => c ∈ Op.claims ops) (fun a => a ∈ s₀.atts) (fun a ha c hc => stale a ha c hc) (Or.inl attest_sites_voted) ops s₀
+    ⟨fun a ha => Or.inr ha, fun e he => by rw [fresh₀] at he; cases he⟩ (fun _ h => h)
+  obtain ⟨pe, hv'⟩ := inv.2 e he
+  obtain ⟨_, hk, pv⟩ := hv' v hv
+  obtain ⟨k₁, v₁⟩ := valid _ pv
+  obtain ⟨k₂, v₂⟩ := valid _ pe
+  exact anyClaim_path_injective k₁ k₂ _ _ v₁ v₂ (collisionFree _ pv _ pe hk)
+
+/-- the other bridge call of `legacyOps`: same legacy hash as `wCall`, another memo and origin -/
+def wCall' : MsgBridgeCallClaim := { wCall with Memo := memoSendCallTo, TxOrigin := ethB }
+
+/-- the state an upgraded chain can be in: oracle 0 (power 10 of 30) voted for `wCall` before the upgrade; the attestation
+is open and sits under the LEGACY hash of `wCall` (which is also the legacy hash of `wCall'`) -/
+def upgradedState : AState Str :=
+  { atts := [{ nonce := 1, hash := legacyKey (.bc wCall), claim := .bc wCall, votes := [(0, .bc wCall)], observed := false }],
+    powers := [(0, 10), (1, 10), (2, 10)], total := 30, lastByOracle := [(0, 1)] }
+
+/-- an `Attest` that, when nothing is stored under the voter's key, adopts an open attestation found under another key -/
+def adoptingLookup : List AttSource := [.ownKey, .otherStored "k.migrateLegacyAttestation(ctx, claim)", .fresh]
+
+/-- with the adopting lookup — the key function and the call sites being the ones of the source — oracle 1's vote for
+`wCall'` is tallied with oracle 0's pre-upgrade vote for `wCall`, crosses the threshold, and `wCall'` is executed: the
+hypothesis `attest_lookup_own_key` of `executed_is_voted_from` is what rules this out -/
+theorem adopting_lookup_not_voted :
+    (∀ c ∈ Op.claims [.vote 1 (.bc wCall') false], c.valid .eth = true)
+    ∧ (∀ a ∈ upgradedState.atts, ∀ c ∈ Op.claims [.vote 1 (.bc wCall') false], ¬(a.nonce = c.nonce ∧ a.hash = c.path))
+    ∧ ∃ e ∈ (runWith attestTrySites adoptingLookup (fun c => c.path) (fun _ _ => true) upgradedState
+              [.vote 1 (.bc wCall') false]).executed, ∃ v ∈ e.tallied, v.2.effect ≠ e.claim.effect :=
+  ⟨by decide +kernel, by decide +kernel,
+   ⟨{ claim := .bc wCall', tallied := [(0, .bc wCall), (1, .bc wCall')] }, by decide +kernel, (0, .bc wCall), by decide +kernel,
+    by decide +kernel⟩⟩
+
+/-- non-vacuity of `executed_is_voted_from`: with the lookup found in the source the stale attestation stays where it is,
+oracle 1's vote opens a new attestation, and oracle 2's vote for the same event executes it with exactly their two votes -/
+example : (run (fun c => c.path) (fun _ _ => true) upgradedState [.vote 1 (.bc wCall') false]).executed = []
+    ∧ (run (fun c => c.path) (fun _ _ => true) upgradedState [.vote 1 (.bc wCall') false, .vote 2 (.bc wCall') false]).executed
+        = [{ claim := .bc wCall', tallied := [(1, .bc wCall'), (2, .bc wCall')] }]
+    ∧ (run (fun c => c.path) (fun _ _ => true) upgradedState [.vote 1 (.bc wCall') false, .vote 2 (.bc wCall') false]).atts.length = 2 := by
+  decide +kernel
+example : upgradedState.executed = []
+    ∧ ∀ a ∈ upgradedState.atts, ∀ c ∈ Op.claims [.vote 1 (.bc wCall') false, .vote 2 (.bc wCall') false],
+        ¬(a.nonce = c.nonce ∧ a.hash = c.path) := by decide +kernel
 
 /-! ## what the handlers READ is what the quorum voted for (round 3)
 
@@ -630,8 +706,8 @@ theorem executed_view_is_voted {η : Type} [DecidableEq η] (H : Str → η) (le
     (collisionFree : ∀ c₁ ∈ Op.claims ops, ∀ c₂ ∈ Op.claims ops, H c₁.path = H c₂.path → c₁.path = c₂.path) :
     ∀ e ∈ (run (fun c => H c.path) le {} ops).executed, ∀ v ∈ e.tallied, v.2.handlerView = e.claim.handlerView := by
   intro e he v hv
-  have inv := inv_run attestTrySites attest_sites_well_keyed (fun c => H c.path) le (fun c => c ∈ Op.claims ops) ops {}
-    (inv_init _ _) (fun _ h => h)
+  have inv := inv_run attestTrySites attestLookup attest_sites_well_keyed attest_lookup_own_key (fun c => H c.path) le
+    (fun c => c ∈ Op.claims ops) (fun _ => False) (stale_false _ _) (Or.inr fun _ h => h) ops {} (inv_init _ _ _) (fun _ h => h)
   obtain ⟨pe, hv'⟩ := inv.2 e he
   obtain ⟨_, hk, pv⟩ := hv' v hv
   exact handler_view_is_voted _ _ (wf _ pv) (wf _ pe) (collisionFree _ pv _ pe hk)
@@ -643,8 +719,24 @@ theorem ran_view_is_voted {η : Type} [DecidableEq η] (H : Str → η) (le : η
     ∀ c ∈ (run (fun c => H c.path) le {} ops).ran,
       ∃ e ∈ (run (fun c => H c.path) le {} ops).executed, e.claim = c ∧ ∀ v ∈ e.tallied, v.2.handlerView = c.handlerView := by
   intro c hc
-  obtain ⟨e, he, hec⟩ := (pendInv_run attestTrySites (fun c => H c.path) le ops {} pendInv_init).2 c hc
+  obtain ⟨e, he, hec⟩ := (pendInv_run attestTrySites attestLookup (fun c => H c.path) le ops {} pendInv_init).2 c hc
   exact ⟨e, he, hec, fun v hv => hec ▸ executed_view_is_voted H le ops wf collisionFree e he v hv⟩
+
+/-- across an upgrade (see `executed_is_voted_from`): what the handlers read of the executed claim is what every tallied
+voter submitted, from any initial state with stale attestations -/
+theorem executed_view_is_voted_from {η : Type} [DecidableEq η] (H : Str → η) (le : η → η → Bool) (s₀ : AState η) (ops : List Op)
+    (wf : ∀ c ∈ Op.claims ops, c.wellFormed = true)
+    (collisionFree : ∀ c₁ ∈ Op.claims ops, ∀ c₂ ∈ Op.claims ops, H c₁.path = H c₂.path → c₁.path = c₂.path)
+    (fresh₀ : s₀.executed = [])
+    (stale : ∀ a ∈ s₀.atts, ∀ c ∈ Op.claims ops, ¬(a.nonce = c.nonce ∧ a.hash = H c.path)) :
+    ∀ e ∈ (run (fun c => H c.path) le s₀ ops).executed, ∀ v ∈ e.tallied, v.2.handlerView = e.claim.handlerView := by
+  intro e he v hv
+  have inv := inv_run attestTrySites attestLookup attest_sites_well_keyed attest_lookup_own_key (fun c => H c.path) le
+    (fun c => c ∈ Op.claims ops) (fun a => a ∈ s₀.atts) (fun a ha c hc => stale a ha c hc) (Or.inl attest_sites_voted) ops s₀
+    ⟨fun a ha => Or.inr ha, fun e he => by rw [fresh₀] at he; cases he⟩ (fun _ h => h)
+  obtain ⟨pe, hv'⟩ := inv.2 e he
+  obtain ⟨_, hk, pv⟩ := hv' v hv
+  exact handler_view_is_voted _ _ (wf _ pv) (wf _ pe) (collisionFree _ pv _ pe hk)
 
 /-- no handler is handed the claim object in a way the translator cannot follow (an entry `.whole`) -/
 theorem handler_view_complete (c : AnyClaim) : ∀ e ∈ c.handlerView, ∀ l ∈ e.vals, ∀ w, l ≠ .whole w := by
